@@ -587,6 +587,42 @@ func genAuthCase(r *prng.R, id string) proto.Case {
 	return proto.Case{ID: id, Ops: ops}
 }
 
+// MANY literal siblings under one parent (around the thresholds of the aggregation plugin's tree: 49, 50, 51, 52,
+// 60): the endpoint policy tree never converges literal children into an assumed path parameter, each declared
+// literal keeps matching only itself, whatever the number of siblings and the declaration order.
+func genManySiblingsCase(r *prng.R, id string) proto.Case {
+	n := prng.Pick(r, []int{49, 50, 51, 52, 60})
+	parent := prng.Pick(r, []string{"api.x.com/v2/reports", "a.com", "a.com/{p}/r"})
+	var ops []string
+	for i := 0; i < n; i++ {
+		// diagnoses / remedies of differing types: the duplicate check stays silent
+		rem, dg := "-", fmt.Sprintf("d%d:1", i)
+		if i%7 == 3 {
+			rem, dg = fmt.Sprintf("r%d:%d:1", i, 1+i%3), "-"
+		}
+		ops = append(ops, fmt.Sprintf("ep GET %s r=%s d=%s", proto.Enc(fmt.Sprintf("%s/s%d", parent, i)), rem, dg))
+	}
+	if r.Bool() { // a deeper pattern below one of the siblings and a parameter sibling
+		ops = append(ops, fmt.Sprintf("ep GET %s r=deep:7:1 d=-", proto.Enc(parent+"/s1/x/{q}")))
+		n++
+	}
+	base := instantiate(r, parent, false)
+	var reqs []string
+	for _, i := range []int{0, 1, r.Intn(n), 48, 49, 50, n - 1} {
+		reqs = append(reqs, "req GET "+proto.Enc(fmt.Sprintf("%s/s%d", base, i)))
+	}
+	reqs = append(reqs, "req GET "+proto.Enc(base+"/zzz"), "req GET "+proto.Enc(base+"/s1/x/7"), "req GET "+proto.Enc(base))
+	fwd, rev := make([]int, n), make([]int, n)
+	for i := range fwd {
+		fwd[i], rev[i] = i, n-1-i
+	}
+	for _, o := range [][]int{fwd, rev} {
+		ops = append(ops, "build perm="+permStr(o))
+		ops = append(ops, reqs...)
+	}
+	return proto.Case{ID: id, Ops: ops}
+}
+
 // ---- L1 cases ---------------------------------------------------------------------------------
 
 func genTrieCase(r *prng.R, id string) proto.Case {
@@ -706,6 +742,8 @@ func gen(r *prng.R, f proto.Flags, emit func(proto.Case)) {
 			emit(genSpoeCase(rr, fmt.Sprintf("s%d", k)))
 		case k%25 == 12:
 			emit(genAuthCase(rr, fmt.Sprintf("a%d", k)))
+		case k%100 == 13:
+			emit(genManySiblingsCase(rr, fmt.Sprintf("m%d", k)))
 		case k%3 == 0:
 			emit(genTrieCase(rr, fmt.Sprintf("t%d", k)))
 		default:
